@@ -1,4 +1,6 @@
 SPECIFICATION Spec
 CONSTANTS
   MaxC = 4
+  MaxLong = 16
+  MaxJobs = 9
 CHECK_DEADLOCK FALSE
